@@ -301,14 +301,48 @@ def handleNt (ctx : Ctx) (toks : List String) : String × String × String :=
     | _ => ("bad-op", "-", "")
   | _ => ("bad-op", "-", "")
 
-def handleThreads (ctx : Ctx) (ops : List String) : String × String × String :=
-  match ops.mapM parseThreadOp with
-  | none => ("bad-op", "-", "")
-  | some ops =>
-    (" ".intercalate ((runSchedule ctx.prof [] ops).map showObs), " ".intercalate (specSchedule ops), "")
+/-- spec of one schedule step given the (thread, mode) history so far -/
+def specSchedule' (hist : List (Nat × Mode)) : ThreadOp → String
+  | .set _ _ => "-"
+  | .get t => ((hist.find? (fun e => e.1 = t)).map (·.2) |>.getD Mode.heven).toString
+  | .round t c p n =>
+    let m := (hist.find? (fun e => e.1 = t)).map (·.2) |>.getD Mode.heven
+    (expOp (Spec.round m c p n)).replace " " ","
+  | .probe t =>
+    let m := (hist.find? (fun e => e.1 = t)).map (·.2) |>.getD Mode.heven
+    ",".intercalate ([15, 25, -15, 21, 5].map fun (c : Int) => toString (Spec.specRound m c 10))
 
-def handle (ctx : Ctx) (toks : List String) : String × String × String :=
-  if toks.head? = some "threads" then handleThreads ctx toks.tail else
+/-- `threads` request.  Besides the ops of `parseThreadOp` a schedule may contain `x<t>:<request>` (tokens joined by `_`): any
+    request of the protocol, executed on thread `t` under that thread's own default mode.  Model: the thread's cell of the world;
+    spec: the mode the thread set last (else HalfEven). -/
+def handleThreads (ctx : Ctx) (h : Ctx → List String → String × String × String) (ops : List String) :
+    String × String × String :=
+  let rec go (w : World) (hist : List (Nat × Mode)) : List String → Option (List String × List String)
+    | [] => some ([], [])
+    | o :: rest =>
+      if o.take 1 == "x" then
+        match (o.drop 1).toString.splitOn ":" with
+        | [t, req] =>
+          let t := parseNat t
+          let toks := req.splitOn "_"
+          let m := (h { ctx with tm := w.default t } toks).1
+          let sm := (hist.find? (fun e => e.1 = t)).map (·.2) |>.getD Mode.heven
+          let sp := (h { ctx with tm := sm } toks).2.1
+          (go w hist rest).map fun (ms, ss) => (m.replace " " "," :: ms, sp.replace " " "," :: ss)
+        | _ => none
+      else
+        match parseThreadOp o with
+        | none => none
+        | some op =>
+          let (w', obs) := threadStep ctx.prof w op
+          let hist' := match op with | .set t m => (t, m) :: hist | _ => hist
+          let sp := specSchedule' hist op
+          (go w' hist' rest).map fun (ms, ss) => (showObs obs :: ms, sp :: ss)
+  match go [] [] ops with
+  | none => ("bad-op", "-", "")
+  | some (ms, ss) => (" ".intercalate ms, " ".intercalate ss, "")
+
+def handleOp (ctx : Ctx) (toks : List String) : String × String × String :=
   if toks.head? = some "nt" then handleNt ctx toks else
   let binOps := ["add", "sub", "mul", "div", "rem", "cadd", "csub", "cmul", "cdiv", "crem"]
   let intOps := ["iadd", "isub", "imul", "idiv", "irem", "icadd", "icsub", "icmul", "icdiv", "icrem", "iquant",
@@ -529,6 +563,9 @@ def handle (ctx : Ctx) (toks : List String) : String × String × String :=
     (s!"ok,{a},{p} {b2s e}{b2s e}{b2s e} {c} {c} {c}",
       s!"ok,{a},{p} {b2s (so == .eq)}{b2s (so == .eq)}{b2s (so == .eq)} {showOrd so} {showOrd so} {showOrd so}", "")
   | _ => ("bad-op", "-", "")
+
+def handle (ctx : Ctx) (toks : List String) : String × String × String :=
+  if toks.head? = some "threads" then handleThreads ctx handleOp toks.tail else handleOp ctx toks
 
 def profileOf (s : String) : Profile :=
   match s with
